@@ -15,6 +15,8 @@
      heap computes), the final shared arrays with the model's (C19_no_write_to_shared).
    Concurrent runs come in three deployment shapes (the kind tag of the case says which): plain; all sessions in
    state-debug mode; persisted sessions sharing ONE filesystem state directory through separate handles.
+   Interleaved runs (driver alias) also come in the shape of a long-lived server: ONE persist.Persister created WithFlush and
+   reused for every request of every session (kind app-shared-persister), sessions with a Config.Language of their own.
    The monitor looks at observations only: outputs, Finish/load success and the finally stored session equal those of the solo runs; shared arrays
    byte-identical to their initial content, sentinel region included; no session's st.Code ever
    overlapped a shared array. *)
@@ -71,13 +73,19 @@ Definition prim_mon_ok (p : pcase) : bool := negb (sched_repaired (pc_sched p)) 
 (* sr_fin: Finish succeeded and the stored session could be loaded afterwards (true for long-lived sessions) *)
 Record sresp := mkSresp { sr_cont : bool; sr_exec : ostat; sr_out : list N; sr_flush : ostat; sr_fin : bool }.
 
+(* one session of a run: how it is served and what was observed *)
+Record sessobs := mkSessObs {
+  so_pers : bool;                         (* one engine per request over a store (else one long-lived engine) *)
+  so_first : option (list fres);          (* the script of ITS entry function (engine.WithFirst); differs from session to session *)
+  so_lang : option (list N);              (* ITS Config.Language, when it differs from the case's configuration *)
+  so_steps : list (list N * eobs)         (* (input, observation) in its own order *)
+}.
+
 Record acase := mkAcase {
   ac_app : app;
   ac_cfg : config;
   ac_spare : list N;                                   (* the sentinel bytes behind every shared slice *)
-  ac_sess : list (bool * option (list fres) * list (list N * eobs));
-                                                       (* per session: persisted?, the script of ITS entry function (engine.WithFirst; differs
-                                                          from session to session), (input, observation) in its own order *)
+  ac_sess : list sessobs;
   ac_sched : list N;                                   (* which session each request of the run belonged to ([]: concurrent) *)
   ac_solo : list (list sresp);                         (* per session: its responses when served alone *)
   ac_final : list (list N);                            (* code arrays afterwards, full capacity, in a_code order *)
@@ -87,15 +95,15 @@ Record acase := mkAcase {
   ac_solo_final : list (option osnap)                  (* per session: its stored session (snapshot) at the end of its solo run *)
 }.
 
-Definition cfg_with_first (c : config) (f : option (list fres)) : config :=
-  mkCfg (c_out c) (c_root c) (c_flagcount c) (c_cachesize c) (c_lang c) (c_sep c) (c_reset_empty c) f.
+Definition cfg_of_sess (c : config) (s : sessobs) : config :=
+  mkCfg (c_out c) (c_root c) (c_flagcount c) (c_cachesize c)
+        (match so_lang s with Some l => l | None => c_lang c end) (c_sep c) (c_reset_empty c) (so_first s).
 
-Definition sess_corr_ok (a : app) (c0 : config) (s : bool * option (list fres) * list (list N * eobs)) : bool :=
+Definition sess_corr_ok (a : app) (c0 : config) (s : sessobs) : bool :=
   let rs := app_rsrc a in
-  let '(pers, first, steps) := s in
-  let c := cfg_with_first c0 first in
-  if pers then corr_pers rs c (mkPw None [] [] false) steps 1 =? 0
-  else corr_long rs c (new_engine c None [] []) steps 1 =? 0.
+  let c := cfg_of_sess c0 s in
+  if so_pers s then corr_pers rs c (mkPw None [] [] false) (so_steps s) 1 =? 0
+  else corr_long rs c (new_engine c None [] []) (so_steps s) 1 =? 0.
 
 Definition app_tbl (a : app) (spare : list N) : list (list N * list N) := map (fun kv => (snd kv, spare)) (a_code a).
 
@@ -114,10 +122,10 @@ Fixpoint sresps_of (steps : list (list N * eobs)) (fins : list bool) : list sres
   | [] => []
   | (_, o) :: r => sresp_of o (match fins with f :: _ => f | [] => false end) :: sresps_of r (match fins with _ :: fr => fr | [] => [] end)
   end.
-Fixpoint run_sresps (ss : list (bool * option (list fres) * list (list N * eobs))) (fins : list (list bool)) : list (list sresp) :=
+Fixpoint run_sresps (ss : list sessobs) (fins : list (list bool)) : list (list sresp) :=
   match ss with
   | [] => []
-  | s :: r => sresps_of (snd s) (match fins with f :: _ => f | [] => [] end) :: run_sresps r (match fins with _ :: fr => fr | [] => [] end)
+  | s :: r => sresps_of (so_steps s) (match fins with f :: _ => f | [] => [] end) :: run_sresps r (match fins with _ :: fr => fr | [] => [] end)
   end.
 
 (* the session's stored state after its last request of the run *)
@@ -126,7 +134,7 @@ Definition last_snap (steps : list (list N * eobs)) : option osnap :=
 
 Definition app_mon_ok (ac : acase) : bool :=
   list_eqb (list_eqb sresp_eqb) (run_sresps (ac_sess ac) (ac_fin ac)) (ac_solo ac)
-  && list_eqb (option_eqb osnap_eqb) (map (fun s => last_snap (snd s)) (ac_sess ac)) (ac_solo_final ac)
+  && list_eqb (option_eqb osnap_eqb) (map (fun s => last_snap (so_steps s)) (ac_sess ac)) (ac_solo_final ac)
   && list_eqb bytes_eqb (ac_final ac) (initial_arrays (app_tbl (ac_app ac) (ac_spare ac)))
   && negb (ac_aliased ac) && ac_other_intact ac.
 
